@@ -68,3 +68,8 @@ M("c04-restart-wrong-origin", "C04", A, "CancelScope._restart_cancellation", "sc
 # from seeded change C04/f (round 3)
 M("c04-shielded-checkpoint-fast-path", "C04", A, "AsyncIOBackend.cancel_shielded_checkpoint", "        with CancelScope(shield=True):\n            await sleep(0)",
   "        if cls.current_effective_deadline() == -math.inf:\n            with CancelScope(shield=True):\n                await sleep(0)\n        else:\n            await sleep(0)", ["R04-j"])
+
+# from seeded change C04/h (round 4)
+M("c04-cancelled-caught-only-without-remainder", "C04", A, "CancelScope.__exit__",
+  "                    self._cancelled_caught = True\n\n                    if remaining is None:\n                        return True",
+  "                    if remaining is None:\n                        self._cancelled_caught = True\n                        return True", ["R04-c"])
